@@ -251,6 +251,20 @@ Theorem c06_continuation_reusable_in_place State (E : env State) code w fail ms 
 Proof. exact (continuation_reusable_in_place State E code w fail ms rest stack st tm t1 s1 t2 s2). Qed.
 Print Assumptions c06_continuation_reusable_in_place.
 
+(** A wrapper may keep the continuation and run it later (after the jump that
+    was on the stack when it was made has long returned): each such run on a
+    copy of the context kept with it executes the same remaining rules and
+    pending jump returns, with the same result, as the run in place. *)
+Theorem c06_continuation_reusable_later State (E : env State) code w n ms rest stack st tm t s r :
+  (forall k st, wrap_o E w k st = keep_wrapper code w n true k st) ->
+  match_loop E ms st = (tm, VTrue) ->
+  exec_walker E (rest, stack) st = (t, s, r) ->
+  exec_walker E (RCons (Rule ms (Wrap w)) rest, stack) st
+  = (tm ++ EWrap w 0 :: repeat_app (t ++ [EWrap w (2 + code s); EWrap w (3000 + errc r)]) n
+        ++ t ++ match r with None => [EWrap w 1] | Some _ => [] end, s, r).
+Proof. exact (continuation_reusable_later State E code w n ms rest stack st tm t s r). Qed.
+Print Assumptions c06_continuation_reusable_later.
+
 (** ** building: targets are resolved when the rule is built *)
 
 (** The sequence built last is resolved against exactly the sequences built
